@@ -9,3 +9,9 @@ fp("dask/array/rechunk.py", "cumdims_label", "_breakpoints", "_intersect_1d", "o
 fp("dask/array/creation.py", "arange", "linspace", "eye", "diag", "diagonal", "tri", "indices", "meshgrid", "fromfunction")
 fp("dask/array/chunk.py", "arange", "linspace")
 fp("dask/array/wrap.py", "_parse_wrap_args", "wrap_func_shape_as_first_arg", "wrap_func_like", "full", "full_like")
+fp("dask/array/reshape.py", "reshape_rechunk", "_calc_lower_dimension_chunks", "_smooth_chunks", "_cal_max_chunk_size",
+   "expand_tuple", "contract_tuple", "reshape")
+fp("dask/array/core.py", "concatenate", "stack", "block")
+fp("dask/array/creation.py", "repeat", "tile", "pad", "pad_edge", "pad_reuse", "pad_stats", "get_pad_shapes_chunks", "expand_pad_value")
+fp("dask/array/routines.py", "flip", "rot90", "roll", "diff", "tril", "triu", "take", "squeeze", "expand_dims", "transpose", "swapaxes")
+fp("dask/array/_shuffle.py", "shuffle", "_shuffle", "_calculate_new_chunksizes", "_rechunk_other_dimensions")
